@@ -157,6 +157,41 @@ def native_purity_sources():
     return {'state': 'ok', 'checked': n}
 
 
+def native_hashseed():
+    """the same model gives the same warnings in the same order in every process (hash randomisation must not show)"""
+    import json
+    import os
+    import subprocess
+    import sys
+    code = (
+        'import json,sys\n'
+        'from bare_script import lint_script\n'
+        'models=json.load(sys.stdin)\n'
+        'print(json.dumps([lint_script(m) for m in models]))\n')
+    lab = lambda n: {'label': n}
+    jmp = lambda n: {'jump': {'label': n}}
+    names = ['alpha', 'beta', 'gamma', 'delta', 'eps', 'zeta', 'eta', 'theta']
+    models = [{'statements': [lab(n) for n in names]}, {'statements': [jmp(n) for n in names]},
+              {'statements': [{'function': {'name': 'ff', 'args': ['p', 'q', 'r'], 'statements': [lab(n) for n in names] + [jmp('x' + n) for n in names]}}]},
+              {'statements': [{'function': {'name': 'f' + n, 'statements': [{'expr': {'name': n, 'expr': {'number': 1}}}, {'expr': {'name': 'u' + n, 'expr': {'number': 2}}}]}}
+                              for n in names]}]
+    outs = []
+    for seed in ('1', '2', '3', '77'):
+        env = dict(os.environ, PYTHONHASHSEED=seed)
+        p = subprocess.run([sys.executable, '-c', code], input=json.dumps(models), capture_output=True, text=True, env=env, timeout=120)
+        outs.append(p.stdout.strip())
+    if len(set(outs)) != 1 or not outs[0]:
+        return {'state': 'violation', 'detail': {'clause': 'lint_script output depends on the process (hash seed): the same model gives different warnings/order',
+                                                 'outputs': [o[:300] for o in sorted(set(outs))[:2]]},
+                'replay': {'module': 'vf.props.c18', 'fn': 'replay_hashseed', 'kwargs': {}}}
+    return {'state': 'ok', 'checked': 4 * len(models)}
+
+
+def replay_hashseed():
+    r = native_hashseed()
+    return r['state'] == 'ok', r.get('detail', {})
+
+
 def replay_source(src):
     from bare_script import parse_script, lint_script
     model = parse_script(src)
@@ -296,6 +331,8 @@ def plan(tier, seed, workdir):
                'timeout': 900, 'est': 40}, family='purity + exactness of label/redefinition warnings (concrete)')
     p.add({'kind': 'native', 'id': 'purity_sources', 'module': 'vf.props.c18', 'fn': 'native_purity_sources', 'kwargs': {}, 'timeout': 600, 'est': 30},
           family='purity on structured programs and shipped .bare files (concrete)')
+    p.add({'kind': 'native', 'id': 'hashseed', 'module': 'vf.props.c18', 'fn': 'native_hashseed', 'kwargs': {}, 'timeout': 300, 'est': 10},
+          family='determinism across processes with different hash seeds (concrete)')
     jl = 3 if tier == 'quick' else 4
     nseq = len(_just_sequences(jl))
     jchunk = 400 if tier == 'quick' else 450
